@@ -22,6 +22,7 @@ ASSUMPTIONS = [
 
 def make(rng, cls, pick=None, force_mid=None):
     sc = Scenario([], prate=0)
+    sc.compress = rng.random() < 0.3      # the client OFFERED permessage-deflate; the reply below does not grant it: nothing changes
     pre_items = [gen_core.gen_item(rng) for _ in range(rng.randint(0, 3))]
     frames, expected = [], []
     for it in pre_items:
@@ -145,6 +146,28 @@ def explore(res, tier, seed, model_ok=True):
             res.failures.append(dict(cls='violation:' + cls, what='on an object whose previous connection was "%s": the violation was not reported / a message was delivered' % pn,
                                      input=dict(previous=ch[:-1], next=ch[-1]), observed=[e[:80] for e in evs2]))
     # ---- all two-byte headers ----------------------------------------------------------
+    # RSV1 headers when the client offered permessage-deflate and the server did NOT grant it (still a reserved bit), and RSV2/RSV3 on a
+    # continuation frame inside a message when it did (still reserved)
+    tscs, tmeta = [], []
+    for b0 in (0xc1, 0xc2, 0xc9, 0xc0, 0x41, 0x42, 0x49):
+        for b1 in (0x00, 0x01, 0x05, 0x7d):
+            sc = Scenario([], prate=0, compress=True)
+            body = b'x' * (b1 & 0x7f)
+            sc.env = reads([sc.good_reply() + bytes([b0, b1]) + body + server_frame(1, b'AFTER')]) + [('wait', 1, ('eof',))]
+            tscs.append(sc); tmeta.append(('offered-not-granted %02x %02x' % (b0, b1)))
+    for b0 in (0x20, 0x10, 0x30, 0xa0, 0x90, 0xb0, 0x60, 0xe0):
+        sc = Scenario([], prate=0, compress=True)
+        sc.env = reads([sc.good_reply(b'Sec-WebSocket-Extensions: permessage-deflate\r\n') + server_frame(1, b'ab', fin=0) + bytes([b0, 0x01]) + b'c' + server_frame(1, b'AFTER')]) + [('wait', 1, ('eof',))]
+        tscs.append(sc); tmeta.append(('granted, continuation with RSV2/3 %02x' % b0))
+    tp = coreutil.run_pairs(tscs, model_ok)
+    for (js, line, real, model), what in zip(tp, tmeta):
+        if isinstance(real, dict):
+            res.crashes.append(real); continue
+        res.case(('rsv-targeted', what)); res.count('rsv_targeted')
+        evs2 = events(real)
+        if len([e for e in evs2 if e.startswith('E:protocol_error')]) != 1 or any(e.split(':')[1] in ('text', 'binary', 'ping', 'pong') for e in evs2):
+            res.failures.append(dict(cls='violation:rsv-bits', what='reserved bit not handled as a violation (%s)' % what, input=line[:3000], scenario=js, observed=[e[:80] for e in evs2[-5:]]))
+    coreutil.check_corr(res, tp)
     states = [('idle', b'', False)]
     if tier == 'thorough':
         states += [('mid-text', server_frame(1, b'ab', fin=0), False), ('mid-binary', server_frame(2, b'ab', fin=0), False),
